@@ -174,6 +174,10 @@ var c17Fragments = []string{
 	"{% for i in [] %}x{% else %}{{ v|sf2 }}{% endfor %}",
 	"{% for i in [1, 2] %}{% for j in [1, 2] %}{{ sg1(j) }}{% endfor %}{% endfor %}",
 	"{% for i in xs|sf1 %}{{ i }}{% endfor %}",
+	// loops over strings, maps and ranges (each kind of sequence has its own iteration code)
+	"{% for c in 'héy' %}{{ c|sf1 }}{% endfor %}", "{% for k, c in v %}{{ sg1(c) }}{{ k }}{% endfor %}", "{% for c in 'ab' %}{% for d in 'cd' %}{{ sg2(d) }}{% endfor %}{% endfor %}",
+	"{% for k, x in {'a': 1, 'b': 2} %}{{ x|sf1 }}{{ sg1(k) }}{% endfor %}", "{% for k, x in m %}{{ sg2(x) }}{% endfor %}", "{% for i in range(1, 2) %}{{ sg1(i) }}{% else %}e{% endfor %}",
+	"{% for c in 'xyz'|sf1 %}{% if c is st1 %}t{% endif %}{% endfor %}",
 	"{% set q = sg1(5) %}{{ q|sf2 }}",
 	"{% apply sf1 %}body {{ v|sf2 }}{% endapply %}",
 	"{% spaceless %}<a> {{ v|sf1 }} </a> <b></b>{% endspaceless %}",
